@@ -202,6 +202,8 @@ func (env *Env) lookupType(name string) types.Type {
 		return types.Typ[types.String]
 	case "error":
 		return types.Universe.Lookup("error").Type()
+	case "any", "interface{}":
+		return types.Universe.Lookup("any").Type()
 	case "mathint":
 		return ghostIntType
 	case "seq":
